@@ -7,7 +7,7 @@ import shutil
 import tempfile
 
 from engine import pool_map
-from readers import bgzf_blocks, line_at, load_pickle, read_text, run_cli, write_text, workdir
+from readers import read_out, bgzf_blocks, line_at, load_pickle, read_text, run_cli, write_text, workdir
 
 RC = str.maketrans("ACGT", "TGCA")
 
@@ -123,19 +123,19 @@ def battery(d, tag, nodes, links, recs, reads, gs, fs, block, eol="\n", zsuf=".g
     for qi, args in enumerate([["-n", "r1"], ["-n", "r2", "-n", "a1"], ["-r", "chr1:5-40"], ["-r", "chr1:0-3", "-r", "chr1:60-61"], ["-n", "r2", "-g", gfa, "-f", "stable"]]):
         o = os.path.join(d, f"{tag}_v{qi}")
         r = run_cli(["view", gaf, "-o", o] + args)
-        put(f"view{qi}", r if r["status"] != "exit" else dict(r, status="ok"), (open(o).read() if os.path.exists(o) else "") + f"|{r['status']}")
+        put(f"view{qi}", r if r["status"] != "exit" else dict(r, status="ok"), (read_out(o) if os.path.exists(o) else "") + f"|{r['status']}")
     o = os.path.join(d, f"{tag}_vall")
     r = run_cli(["view", gaf, "-o", o])       # the whole file, as it is
-    put("view_all", r, open(o).read() if os.path.exists(o) else "")
+    put("view_all", r, read_out(o) if os.path.exists(o) else "")
     st = os.path.join(d, f"{tag}_st.gaf")
     r = run_cli(["view", gaf, "-g", gfa, "-f", "stable", "-o", st])
-    put("view_stable", r, open(st).read() if os.path.exists(st) else "")
+    put("view_stable", r, read_out(st) if os.path.exists(st) else "")
     if r["status"] == "ok":
         st2 = os.path.join(d, f"{tag}_st2.gaf" + (".gz" if bg else ""))
-        write_text(st2, open(st).read(), gs, block=block)
+        write_text(st2, read_out(st), gs, block=block)
         o = os.path.join(d, f"{tag}_us")
         r = run_cli(["view", st2, "-g", gfa, "-f", "unstable", "-o", o])
-        put("view_unstable", r, open(o).read() if os.path.exists(o) else "")
+        put("view_unstable", r, read_out(o) if os.path.exists(o) else "")
         r = run_cli(["index", st2, gfa])
         val, okall = [], True
         if r["status"] == "ok" and not os.path.exists(st2 + ".gvi"):
@@ -165,13 +165,13 @@ def battery(d, tag, nodes, links, recs, reads, gs, fs, block, eol="\n", zsuf=".g
     for ci, extra in enumerate(([], ["--cigar"])):
         o = os.path.join(d, f"{tag}_stat{ci}")
         r = run_cli(["stat", gaf, "-o", o] + extra)
-        put(f"stat{ci}", r, open(o).read() if os.path.exists(o) else "")
+        put(f"stat{ci}", r, read_out(o) if os.path.exists(o) else "")
     o = os.path.join(d, f"{tag}_re.gaf")
     r = run_cli(["realign", gaf, gfa, fa, "-o", o], timeout=120)
     import gc
 
     gc.collect()
-    put("realign", r, open(o).read() if os.path.exists(o) else "")
+    put("realign", r, read_out(o) if os.path.exists(o) else "")
     pf = os.path.join(d, f"{tag}_paths.txt")
     with open(pf, "w") as f:
         for l in recs[:6]:
@@ -179,7 +179,7 @@ def battery(d, tag, nodes, links, recs, reads, gs, fs, block, eol="\n", zsuf=".g
         f.write(">r1<r1\n")
     o = os.path.join(d, f"{tag}_fp")
     r = run_cli(["find_path", gfa, pf, "-o", o, "-f"])
-    put("find_path", r, open(o).read() if os.path.exists(o) else "")
+    put("find_path", r, read_out(o) if os.path.exists(o) else "")
     od = os.path.join(d, f"{tag}_og")
     r = run_cli(["order_gfa", "--chromosome_order", "chr1", "--outdir", od, "--with-sequence", raw])
     put("order_gfa", r, [read_text(p) for p in sorted(glob.glob(os.path.join(od, "*")))])
@@ -254,7 +254,7 @@ def run_session(job):
                 o = os.path.join(d, f"late{k}_{qi}")
                 r = run_cli(["view", gaf, "-o", o] + args)
                 per[k][f"lateview{qi}"] = {"status": r["status"] if r["status"] in ("ok", "exit") else r["status"] + ":" + r["exc"][:50],
-                                           "value": (open(o).read() if os.path.exists(o) else "") + f"|{r['status']}", "resolved": True}
+                                           "value": (read_out(o) if os.path.exists(o) else "") + f"|{r['status']}", "resolved": True}
                 if per[k][f"lateview{qi}"]["status"] == "exit":
                     per[k][f"lateview{qi}"]["status"] = "ok"
         cases = []
